@@ -12,7 +12,7 @@ CHECKS = {
         "exploration",
         "Hypothesis generated containers/operands/indices vs numpy reference arithmetic (algebraic laws, exact power-of-two scaling)",
         "Generated-input search: every container kind, operand compatibility class, scalar and index expression is drawn by Hypothesis and the result compared with numpy arithmetic on the generated arrays; exploration is the right level because the property quantifies over unbounded array contents that cannot be enumerated.",
-        "numpy semantics as reference; bounded sizes (<=5 bins, <=6 patches); held-on-explored only",
+        "numpy semantics as reference; bounded sizes (<=5 bins, <=6 patches); operands also as restored from HDF5 / unpickled / sliced / copied; held-on-explored only",
         "DESIGN.md §2 C17",
     ),
 }
@@ -28,7 +28,7 @@ CHECKS.update({
         "exploration",
         "Hypothesis generated pair-count containers and catalogs vs explicit delete-patch-k recomputation and loop-based jackknife covariance",
         "Generated-input search: containers with exactly representable entries make the library's subtract-from-total shortcut and the oracle's explicit deletion agree exactly; end-to-end cases re-create catalogs without patch k and re-measure. Exploration over unbounded array contents.",
-        "dyadic entries for exact comparison; degenerate (non-finite) bins not judged; bounded sizes (<=7 patches, <=5 bins)",
+        "dyadic entries for exact comparison; degenerate (non-finite) bins not judged; mostly <=7 patches and <=5 bins, rarely 127-300 patches",
         "DESIGN.md §2 C03",
     ),
     "C04": (
@@ -44,7 +44,7 @@ CHECKS.update({
         "exploration",
         "Hypothesis generated sky scenes + configurations through the public pipeline vs brute-force O(N^2) pair-count reference (differential)",
         "Generated-input search: scenes are laid out relative to the configuration's largest angle so that cross-patch pairs near the pruning threshold, low/high redshift, poles and the RA seam are reached by construction; every (scale, bin, patch pair) cell and every weight sum is compared with an independent brute-force count. Exploration, since catalogs and configurations are unbounded.",
-        "astropy distances and numpy as reference; cells with a pair within 1e-12+1e-9*theta of an edge are skipped; small catalogs (<=5 patches, <=9 objects per patch)",
+        "astropy distances and numpy as reference; cells with a pair within 1e-12+1e-9*theta of an edge are skipped; catalogs of <=14 patches with <=9 objects per patch, plus rare lattice scenes of 128-300 patches and all-sky scenes with hemisphere-sized patches",
         "DESIGN.md §2 C01",
     ),
 })
